@@ -15,9 +15,11 @@ _UUID_CHAR = "[0-9a-fA-F-]"
 UUID_PATTERN = "^%s{36}$" % _UUID_CHAR
 
 _RC_TRAIT_CHAR = "[A-Z0-9_]"
-_RC_TRAIT_PATTERN = "^%s+$" % _RC_TRAIT_CHAR
+# NOTE: \Z, not $, ends these patterns: $ also matches before a trailing
+# newline.
+_RC_TRAIT_PATTERN = r"^%s+\Z" % _RC_TRAIT_CHAR
 RC_PATTERN = _RC_TRAIT_PATTERN
-_CUSTOM_RC_TRAIT_PATTERN = "^CUSTOM_%s+$" % _RC_TRAIT_CHAR
+_CUSTOM_RC_TRAIT_PATTERN = r"^CUSTOM_%s+\Z" % _RC_TRAIT_CHAR
 CUSTOM_RC_PATTERN = _CUSTOM_RC_TRAIT_PATTERN
 CUSTOM_TRAIT_PATTERN = _CUSTOM_RC_TRAIT_PATTERN
 CONSUMER_TYPE_PATTERN = _RC_TRAIT_PATTERN
